@@ -41,8 +41,11 @@ def strategy():
   from harness import histories
   op = histories.op_strategy(owners=['o0'], sids=['s0', 's0', 's0', 's1'],
                              max_suggest=3, optimal=False)
-  general = op.filter(lambda o: o[0] in histories.MUTATING
-                      or o[0] == 'early_stop')
+  vop = histories.op_strategy(owners=['o0'], sids=['s0'] * 9 + ['s1'],
+                              max_suggest=3, optimal=False)
+  general = vop.filter(lambda o: (o[0] in histories.MUTATING
+                                  or o[0] == 'early_stop')
+                       and o[0] != 'create_study')
   mdv = st.sampled_from(['v', 'w', ''])
   multi_md = st.tuples(
       st.just('update_md'), st.just('o0'), st.just('s0'),
@@ -50,7 +53,9 @@ def strategy():
                          st.sampled_from(['', ':a']),
                          st.sampled_from(['k', 'j']), mdv).map(list),
                min_size=2, max_size=4)).map(list)
-  victim = st.one_of(general, general, general, multi_md,
+  victim = st.one_of(general, general, general, general, general, multi_md,
+                     st.tuples(st.just('create_study'), st.just('o0'),
+                               st.sampled_from(['s0', 's1'])).map(list),
                      st.just(['delete_study', 'o0', 's0']),
                      st.tuples(st.just('suggest'), st.just('o0'),
                                st.just('s0'), st.sampled_from(['w1', 'w2']),
